@@ -53,6 +53,17 @@ func c26overlapCases() []c26overlapCase {
 			}
 		}
 	}
+	// REGISTER and SUBSCRIBE (or two REGISTERs) of one topic name in progress at once: the (conforming)
+	// gateway gives both the same TopicID; afterwards Publish on the name must work and use that ID
+	for _, kind := range []string{"reg-reg", "reg-sub", "sub-reg"} {
+		for _, rc1 := range []byte{0, 3} {
+			for _, rc2 := range []byte{0, 3} {
+				for _, swap := range []bool{false, true} {
+					out = append(out, c26overlapCase{kind, "t/x", rc1, rc2, swap, 0})
+				}
+			}
+		}
+	}
 	return out
 }
 
@@ -77,8 +88,10 @@ func c26overlapRun(t *testing.T, r *rt.Run, c *rt.Case, k c26overlapCase) {
 			switch p.Type {
 			case snref.CONNECT:
 				g.Send(snref.Connack(0))
-			case snref.SUBSCRIBE, snref.UNSUBSCRIBE:
+			case snref.SUBSCRIBE, snref.UNSUBSCRIBE, snref.REGISTER:
 				pending = append(pending, pend{p.Type, p.MsgID})
+			case snref.PUBLISH:
+				tr.Add(0, world.Note, nil, fmt.Sprintf("client-publish tit=%d tid=%d", p.TIT, p.TopicID))
 			case snref.PUBACK, snref.REGACK:
 			case snref.DISCONNECT:
 				g.Send(snref.Disconnect())
@@ -91,7 +104,13 @@ func c26overlapRun(t *testing.T, r *rt.Run, c *rt.Case, k c26overlapCase) {
 			return
 		}
 		ack := func(p pend, rc byte) {
-			if p.typ == snref.SUBSCRIBE {
+			if p.typ == snref.REGISTER {
+				id := uint16(0)
+				if rc == 0 {
+					id = tid
+				}
+				g.Send(snref.Regack(id, p.mid, rc))
+			} else if p.typ == snref.SUBSCRIBE {
 				id := uint16(0)
 				if k.topic == "t/x" && rc == 0 {
 					id = tid
@@ -102,7 +121,8 @@ func c26overlapRun(t *testing.T, r *rt.Run, c *rt.Case, k c26overlapCase) {
 			}
 		}
 		a := newAPI(tr, 0)
-		if k.kind != "sub-sub" {
+		isReg := strings.Contains(k.kind, "reg")
+		if k.kind != "sub-sub" && !isReg {
 			// the filter is subscribed (callback "old") before the overlapping pair starts
 			n := a.Go("Subscribe(old)", func() error { return cl.Subscribe(k.topic, 1, cbRecorder(tr, 0, "old")) })
 			synctest.Wait()
@@ -117,6 +137,13 @@ func c26overlapRun(t *testing.T, r *rt.Run, c *rt.Case, k c26overlapCase) {
 			}
 		}
 		call := func(i int) int {
+			if isReg {
+				if (k.kind == "reg-sub" && i == 1) || (k.kind == "sub-reg" && i == 0) {
+					name := fmt.Sprintf("cb%d", i+1)
+					return a.Go("Subscribe("+name+")", func() error { return cl.Subscribe(k.topic, 1, cbRecorder(tr, 0, name)) })
+				}
+				return a.Go("Register", func() error { return cl.Register(k.topic) })
+			}
 			sub := (k.kind == "sub-sub") || (k.kind == "sub-unsub" && i == 0) || (k.kind == "unsub-sub" && i == 1)
 			if sub {
 				name := fmt.Sprintf("cb%d", i+1)
@@ -150,6 +177,20 @@ func c26overlapRun(t *testing.T, r *rt.Run, c *rt.Case, k c26overlapCase) {
 		synctest.Wait()
 		errs[0], returned[0] = a.Result(n1)
 		errs[1], returned[1] = a.Result(n2)
+		if isReg {
+			// the name has a TopicID iff one of the two calls was accepted: then Publish works and uses it
+			tr.Add(0, world.Note, nil, "message")
+			perr := cl.Publish(k.topic, []byte("up"), 0, false)
+			synctest.Wait()
+			tr.Add(0, world.Note, nil, fmt.Sprintf("publish-result %v", perr))
+			tr.Add(0, world.Note, nil, "teardown")
+			cl.Close()
+			time.Sleep(3 * time.Second)
+			g.Close()
+			synctest.Wait()
+			evs = tr.Events()
+			return
+		}
 		tr.Add(0, world.Note, nil, "message")
 		// a message on the topic, as a conforming gateway with that subscription would deliver it
 		switch k.topic {
@@ -183,6 +224,32 @@ func c26overlapRun(t *testing.T, r *rt.Run, c *rt.Case, k c26overlapCase) {
 			c.Violation(fmt.Sprintf("overlap|call-hangs|%s|call%d", k.kind, i+1), fmt.Sprintf("call %d did not return: %s", i+1, k), witness)
 			return
 		}
+	}
+	if strings.Contains(k.kind, "reg") {
+		okc := func(i int, rc byte) bool { return (errs[i] == nil) == (rc == 0) }
+		if !okc(0, k.rc1) || !okc(1, k.rc2) {
+			c.Violation(fmt.Sprintf("overlap|result-mismatch|%s", k.kind), fmt.Sprintf("%s: calls returned (%v, %v)", k, errs[0], errs[1]), witness)
+		}
+		pubRes, pubWire := "", ""
+		for _, e := range evs {
+			if e.Kind == world.Note && strings.HasPrefix(e.Note, "publish-result ") {
+				pubRes = strings.TrimPrefix(e.Note, "publish-result ")
+			}
+			if e.Kind == world.Note && strings.HasPrefix(e.Note, "client-publish ") {
+				pubWire = strings.TrimPrefix(e.Note, "client-publish ")
+			}
+		}
+		known := k.rc1 == 0 || k.rc2 == 0
+		if known && (pubRes != "<nil>" || pubWire != fmt.Sprintf("tit=0 tid=%d", tid)) {
+			c.Violation(fmt.Sprintf("overlap|publish-after-registration|%s|rc=%d,%d|swapped=%v", k.kind, k.rc1, k.rc2, k.swap), fmt.Sprintf("%s: the name got TopicID %d from an accepted call, but Publish returned %s and sent [%s]", k, tid, pubRes, pubWire), witness)
+		}
+		if !known && pubWire != "" {
+			c.Violation(fmt.Sprintf("overlap|publish-with-refused-id|%s", k.kind), fmt.Sprintf("%s: both calls were refused but Publish sent [%s]", k, pubWire), witness)
+		}
+		r.Observe("overlapping calls outcome", fmt.Sprintf("%s rc=%d,%d swapped=%v: publish %s [%s]", k.kind, k.rc1, k.rc2, k.swap, pubRes, pubWire))
+		r.Count("overlap_cases", 1)
+		c.Key("overlap|%s", k)
+		return
 	}
 	// which callbacks ran for the message
 	var ran []string
